@@ -38,6 +38,7 @@ def run(ctx):
     ctx.run(OP.pan8_range_arithmetic)
     ctx.run(R.cnd3_block_condition_implies_flush_condition)
     ctx.run(L.lck11_worker_never_waits_for_its_own_pool)
+    ctx.run(B.tbl25_decoder_validates_what_the_applier_assumes)
     return ctx.finish(
         'Static analysis of compiler MIR: deadlock-freedom clauses (acyclic lock-order graph over '
         'all lock identities, no guard across blocking calls except tabled sites, paired condvar '
